@@ -751,7 +751,7 @@ class Interp:
         if c is not None and self.loop_items_cb is not None and re.search(r'Iterator::next$|Iterator>::next$|::next_back$', path or '') \
                 and not t['dest']['proj']:
             dty = f.body.locals[t['dest']['l']]['ty']['s']
-            if re.match(r'^std::option::Option<&+typst_syntax::SyntaxNode>$', dty) and nxt is not None and self.is_loop_header(f.body, f.bb):
+            if re.match(r"^std::option::Option<(&+typst_syntax::SyntaxNode|typst_syntax::LinkedNode<'_>)>$", dty) and nxt is not None and self.is_loop_header(f.body, f.bb):
                 key = (len(m.frames), f.body.id, f.bb)
                 stack = m.iter or []
                 if any(x['header'] == key for x in stack):
@@ -760,12 +760,28 @@ class Interp:
                     if seq is not None and top['header'] == key and top.get('step', 0) + 1 < len(seq):
                         # sequence mode: feed the next item without widening (state of the previous iteration is kept)
                         step = top.get('step', 0) + 1
+                        alts = seq[step] if isinstance(seq[step], list) else [seq[step]]
+                        extra = []
+                        m.visits = {}      # a new iteration of the sequence: the per-path revisit bound starts afresh
+                        for alt in alts[1:]:        # a list at a sequence position = alternatives: one machine per alternative
+                            m2 = fork(m)
+                            f2 = m2.frames[-1]
+                            top2 = m2.iter[-1]
+                            top2['step'] = step
+                            top2['marks'] = top2.get('marks', []) + [len(m2.events)]
+                            top2['seq_items'] = top2.get('seq_items', [top2['item']]) + [alt]
+                            d2 = self.resolve_place(m2, f2, t['dest'])
+                            if d2 is not None:
+                                self.store(d2, Agg('core::option::Option', 'Some', [alt]))
+                            self.goto(f2, nxt)
+                            extra.append(m2)
                         top['step'] = step
                         top['marks'] = top.get('marks', []) + [len(m.events)]
+                        top['seq_items'] = top.get('seq_items', [top['item']]) + [alts[0]]
                         if dest is not None:
-                            self.store(dest, Agg('core::option::Option', 'Some', [seq[step]]))
+                            self.store(dest, Agg('core::option::Option', 'Some', [alts[0]]))
                         self.goto(f, nxt)
-                        return None
+                        return extra or None
                     # an iteration came back to (one of) its headers: this path is complete
                     m.finished = True
                     m.outcome = 'iteration-complete'
@@ -1255,7 +1271,8 @@ class Interp:
                         return Agg('core::option::Option', 'Some', [Ref(a0.cell, a0.proj + (('f', 0),))])
                     return Agg('core::option::Option', 'Some', [lastv])
                 return TOP
-            if last in ('pop', 'drain', 'clear', 'truncate', 'remove', 'retain'):
+            if last in ('pop', 'drain', 'clear', 'truncate', 'remove', 'retain', 'swap_remove', 'pop_back', 'pop_front', 'split_off', 'dedup', 'dedup_by', 'dedup_by_key'):
+                m.events.append(('unqueue', last, lastv))
                 if isinstance(a0, Ref):
                     self.store(a0, Agg('vec', None, [TOP]))
                 return TOP
